@@ -18,6 +18,7 @@ import (
 	"pgregory.net/rapid"
 
 	"github.com/regclient/regclient"
+	"github.com/regclient/regclient/config"
 	"github.com/regclient/regclient/scheme"
 	"github.com/regclient/regclient/scheme/reg"
 	"github.com/regclient/regclient/types"
@@ -94,7 +95,18 @@ type Case struct {
 	// body of that response stalls after its first byte and the cancellation comes while it is streaming
 	CancelAt  int  `json:"cancel_at,omitempty"`
 	CancelMid bool `json:"cancel_mid,omitempty"`
+	// index into layoutNames (how the layout directories are named)
+	LayoutNames int `json:"layout_names,omitempty"`
+	// the target registry has a mirror in its host configuration (two-reg and layout-reg pairings); the mirror is empty
+	TgtMirror bool `json:"tgt_mirror,omitempty"`
 }
+
+// layoutNames are the directory names of the source and target layout: plain ones, and pairs of DIFFERENT
+// directories whose names only differ in what a registry-style normalisation drops (case, punctuation runs)
+var layoutNames = [][2]string{{"src", "tgt"}, {"app_1.0", "app-1.0"}, {"App", "app"}, {"img.v1", "img_v1"}, {"a.b/c", "a-b/c"}, {"repo", "repo-"}}
+
+// HostM is an (empty) mirror configured for the target registry.
+const HostM = "m.example.test"
 
 // DelayTable are the latencies a plan chooses from.
 var DelayTable = []time.Duration{0, 50 * time.Microsecond, 300 * time.Microsecond, 2 * time.Millisecond}
@@ -206,6 +218,8 @@ func Gen(t *rapid.T, o GenOptions) Case {
 	c.Procs = rapid.SampledFrom([]int{1, 4, 16}).Draw(t, "procs")
 	c.TgtByDigest = rapid.IntRange(0, 7).Draw(t, "bydigest") == 0
 	c.SrcForm = rapid.SampledFrom([]string{"", "", "", "", "digest", "tag+digest"}).Draw(t, "srcform")
+	c.LayoutNames = rapid.SampledFrom([]int{0, 0, 0, 1, 2, 3, 4, 5}).Draw(t, "layout_names")
+	c.TgtMirror = rapid.IntRange(0, 4).Draw(t, "tgt_mirror") == 0
 	c.Cache = rapid.IntRange(0, 2).Draw(t, "cache") == 0
 	c.Warm = rapid.SampledFrom([]string{"", "", "", "inspect", "prior-copy"}).Draw(t, "warm")
 	if o.Cancel && rapid.IntRange(0, 5).Draw(t, "cancel") == 0 {
@@ -226,6 +240,12 @@ func (c Case) ClientClasses() []string {
 	}
 	if c.Cache && c.Warm != "" {
 		out = append(out, "client:cache+warm")
+	}
+	if c.LayoutNames > 0 && (strings.Contains(c.Pairing, "layout")) {
+		out = append(out, "layout-names:differ-only-in-case-or-punctuation")
+	}
+	if c.TgtMirror && (c.Pairing == "two-reg" || c.Pairing == "layout-reg") {
+		out = append(out, "host:target-has-a-mirror")
 	}
 	if c.CancelAt > 0 {
 		out = append(out, map[bool]string{false: "caller:cancels-on-arrival-of-a-request", true: "caller:cancels-while-a-body-streams"}[c.CancelMid])
@@ -307,13 +327,13 @@ func Setup(c Case) (*Env, error) {
 		e.Tgt = Endpoint{Kind: "reg", Host: hb, Repo: RepoTgt}
 	case "reg-layout":
 		e.Src = Endpoint{Kind: "reg", Host: ha, Repo: RepoSrc}
-		e.Tgt = Endpoint{Kind: "layout", Dir: filepath.Join(tmp, "tgt")}
+		e.Tgt = Endpoint{Kind: "layout", Dir: filepath.Join(tmp, layoutNames[c.LayoutNames%len(layoutNames)][1])}
 	case "layout-reg":
-		e.Src = Endpoint{Kind: "layout", Dir: filepath.Join(tmp, "src")}
+		e.Src = Endpoint{Kind: "layout", Dir: filepath.Join(tmp, layoutNames[c.LayoutNames%len(layoutNames)][0])}
 		e.Tgt = Endpoint{Kind: "reg", Host: hb, Repo: RepoTgt}
 	case "two-layout":
-		e.Src = Endpoint{Kind: "layout", Dir: filepath.Join(tmp, "src")}
-		e.Tgt = Endpoint{Kind: "layout", Dir: filepath.Join(tmp, "tgt")}
+		e.Src = Endpoint{Kind: "layout", Dir: filepath.Join(tmp, layoutNames[c.LayoutNames%len(layoutNames)][0])}
+		e.Tgt = Endpoint{Kind: "layout", Dir: filepath.Join(tmp, layoutNames[c.LayoutNames%len(layoutNames)][1])}
 	default:
 		return nil, fmt.Errorf("unknown pairing %q", c.Pairing)
 	}
@@ -422,6 +442,10 @@ func Setup(c Case) (*Env, error) {
 		}
 	}
 	conf := rcutil.Conf{}
+	if c.TgtMirror && (c.Pairing == "two-reg" || c.Pairing == "layout-reg") {
+		e.M.AddHost(HostM)
+		conf.Hosts = []config.Host{{Name: HostB, Hostname: HostB, Mirrors: []string{HostM}}, {Name: HostM, Hostname: HostM}}
+	}
 	if c.Cache {
 		conf.RegOpts = append(conf.RegOpts, reg.WithCache(5*time.Minute, 500))
 	}
